@@ -10,6 +10,7 @@ import (
 	"net/http/httptest"
 	"sort"
 	"strings"
+	"sync"
 	"testing"
 	"time"
 
@@ -259,6 +260,7 @@ type AuthCase struct {
 	Ban      string `json:"ban"`     // no, banned, unbanned (banned then unbanned)
 	Garbage  int    `json:"garbage"` // 0 real key, 1/4 one character changed to one outside the alphabet, 2 wrong length, 3 standard-base64 respelling
 	Salt     uint16 `json:"salt"`
+	Disturb  int    `json:"disturb,omitempty"` // between two identical decisions: 1 the key is used for a link extension, 2 a strong unrelated key is authorized, 3 both
 }
 
 var authTargets = []string{"a/", "a/b/", "a/#/", "+/b/", "#/", "a/b/#/", "+/", "a/b/c/", "+/+/"}
@@ -281,7 +283,7 @@ func genAuth(t *rapid.T) AuthCase {
 	for i, n := 0, rapid.SampledFrom([]int{0, 1, 1, 1, 2}).Draw(t, "nbreak"); i < n; i++ {
 		switch rapid.IntRange(0, 8).Draw(t, "break") {
 		case 0:
-			c.Contract = rapid.SampledFrom([]string{"other", "unknown", "http-refused", "http-nostate", "http-allowed"}).Draw(t, "contract")
+			c.Contract = rapid.SampledFrom([]string{"other", "unknown", "http-refused", "http-nostate", "http-allowed", "http-flaky"}).Draw(t, "contract")
 		case 1:
 			c.SigOK = false
 		case 2:
@@ -300,6 +302,7 @@ func genAuth(t *rapid.T) AuthCase {
 			c.Expiry, c.Ban = "future", rapid.SampledFrom([]string{"no", "unbanned"}).Draw(t, "ban") // benign variations
 		}
 	}
+	c.Disturb = rapid.SampledFrom([]int{0, 1, 1, 2, 3}).Draw(t, "disturb")
 	return c
 }
 
@@ -337,12 +340,35 @@ func contractServer(byID map[uint32]string) *httptest.Server {
 			w.Write([]byte(body))
 			return
 		}
+		flakyMu.Lock()
+		body, ok := flaky[id]
+		n := flakySeen[id]
+		flakySeen[id]++
+		flakyMu.Unlock()
+		if ok && n == 0 { // the first lookup of this contract hits a provider that is failing right now
+			w.WriteHeader(500)
+			w.Write([]byte("temporarily unavailable"))
+			return
+		}
+		if ok {
+			w.Header().Set("Content-Type", "application/json")
+			w.Write([]byte(body))
+			return
+		}
 		w.WriteHeader(404)
 	}))
 }
 
 var envs = map[int]*env{}
 var clock int64
+
+// contracts whose first lookup fails (transient provider failure) and that are allowed from the second lookup on
+var (
+	flakyMu   sync.Mutex
+	flaky     = map[uint32]string{}
+	flakySeen = map[uint32]int{}
+	flakyNo   uint32
+)
 
 // second builds a license that shares the broker's encryption key but is another contract.
 func second(l license.License, du, ds uint32) license.License {
@@ -397,6 +423,12 @@ func runAuth(c AuthCase) vkit.Result {
 		lic = e.unk
 	case "http-allowed", "http-refused", "http-nostate":
 		lic = e.http[c.Contract]
+	case "http-flaky":
+		flakyMu.Lock()
+		flakyNo++
+		lic = second(e.b.Lic, 1000+flakyNo, 77)
+		flaky[lic.Contract()] = fmt.Sprintf(`{"id":%d,"master":%d,"sign":%d,"state":1}`, lic.Contract(), lic.Master(), lic.Signature())
+		flakyMu.Unlock()
 	}
 	k := security.Key(make([]byte, 24))
 	k.SetSalt(c.Salt)
@@ -449,12 +481,15 @@ func runAuth(c AuthCase) vkit.Result {
 		panic("harness: request does not parse: " + c.Request)
 	}
 	_, _, got := e.b.S.Authorize(ch, c.Need)
+	if c.Contract == "http-flaky" { // the decision made while the provider was failing is not asserted; the next one is
+		_, _, got = e.b.S.Authorize(ch, c.Need)
+	}
 	cov, unspec := covers(c.Target, c.Request)
 	if unspec {
 		return vkit.Result{Excluded: true, Labels: []string{"unspecified:#-request-vs-exact-target"}}
 	}
 	conj := map[string]bool{
-		"decrypts": c.Garbage == 0, "not-expired": c.Expiry != "past", "not-banned": !e.banned[enc], "contract-allowed": c.Contract != "unknown" && c.Contract != "http-refused" && c.Contract != "http-nostate",
+		"decrypts": c.Garbage == 0, "not-expired": c.Expiry != "past", "not-banned": !e.banned[enc], "contract-allowed": c.Contract != "unknown" && c.Contract != "http-refused" && c.Contract != "http-nostate", // http-flaky: allowed once the provider answers
 		"signature": c.SigOK, "master": c.MasterOK, "permission": c.Perm&c.Need == c.Need, "covers": cov,
 	}
 	want := true
@@ -476,6 +511,24 @@ func runAuth(c AuthCase) vkit.Result {
 	labels := []string{fmt.Sprintf("license-v%d", c.Lic)}
 	if want {
 		labels = append(labels, "allowed")
+	}
+	// the decision is a function of the key, the request and the ban state only: whatever else the broker served in
+	// between - an extension of this very key, another client's powerful key - the same question gets the same answer
+	if c.Disturb != 0 {
+		if c.Disturb&1 != 0 {
+			if _, err := e.b.S.VerifKeygen().ExtendKey(enc, strings.TrimSuffix(strings.TrimSuffix(c.Request, "#/"), "+/"), "CONNID7", 0xff, time.Unix(0, 0)); err == nil {
+				labels = append(labels, "disturb:key-was-extended")
+			}
+		}
+		if c.Disturb&2 != 0 {
+			strong := e.b.Key("#/", 0x7e)
+			if _, _, ok := e.b.S.Authorize(security.ParseChannel([]byte(strong+"/"+"zz/top/")), security.AllowWrite); !ok {
+				return vkit.Failf("a key for #/ with every permission is refused on zz/top/")
+			}
+		}
+		if _, _, again := e.b.S.Authorize(ch, c.Need); again != want {
+			return vkit.Failf("Authorize(%+v) = %v when asked again after other requests were served (disturbance %d), expected %v as before (failing conjuncts: %v)", c, again, c.Disturb, want, failing)
+		}
 	}
 	if len(failing) == 1 {
 		labels = append(labels, "decided-by:"+failing[0])
